@@ -7,9 +7,8 @@ import qast
 from props.common import *
 from props import pyref
 
-TRUSTED_BASE = ['keyword matching is checked against Python\'s re on the regex Keyword::to_regex is documented to build; the regex crate is not modelled',
-                'quoted keywords: the property says "literal text"; the implementation (and the model) match case-insensitively with space = any whitespace; '
-                'the specification used by the check is three-valued there: must pass if the literal text occurs exactly, must not pass if it does not occur even caselessly, unconstrained in between']
+TRUSTED_BASE = ['keyword matching is checked against Python\'s re: a bare keyword is caseless with * as a wildcard, a quoted keyword is its literal text, case-sensitive (README; fix 9cc9c86); the regex crate is not modelled',
+                'a blank in a keyword matches any single whitespace character (implementation and model); the property only says "literal text": the check follows the implementation there']
 ASSUMPTIONS = ['keywords use ASCII letters for case variation']
 
 BARE = ['error', 'ERROR', 'warn', 'a.b', 'x-y', 'foo_bar', 'a*b', 'a*', '*b', 'GET', '/index', 'user@host', '100%', 'c++', 'NOTHING', 'ORDER', 'ANDROID', 'k:v', '$5', '#tag', '^x', '*', '*', '**']
@@ -58,7 +57,9 @@ def model_filter(f):
 
 
 def ev(f, line, mode):
-    """mode 'impl': what to_regex denotes; 'must': literal occurrence for quoted keywords; 'may': caseless"""
+    """does the line (given with its terminator) satisfy the filter?  The filter looks at the text of the line, not at the newline"""
+    if line.endswith('\n'):
+        line = line[:-1]
     t = f[0]
     if t == 'kw':
         if f[1] == 'wild':
@@ -136,6 +137,12 @@ def explore(ctx):
         cases.append(c2)
     # `*` alone selects every line
     cases.append(Case('star', STAR, [], ['a\n', '\n', 'b c\n', '  \n'], {'star'}, note={'filt': ('and', [])}))
+    # the terminator is not part of the line: a line is treated the same whether or not a newline follows it
+    # (a blank in a keyword matches any whitespace -- but not the line break after the line)
+    for kw, text in (('"err "', 'err'), ('"err "', 'err '), ('" "', 'abc'), ('"b "', 'a b'), ('"a  b"', 'a b '), ('err*', 'error'), ('"x" " "', 'x'), ('NOT "r "', 'r')):
+        c = Case('nl-%s-%s' % (kw, text), STAR, [], [text + '\n', text], {'nl'}, note={'filt': None})
+        c.query = kw
+        cases.append(c)
     jobs = [(c.query, c.inp, None, ()) for c in cases]
     outs = aglib.run_impl_many(jobs)
     model = aglib.run_model_many([c.sexp() for c in cases])
@@ -147,6 +154,12 @@ def explore(ctx):
                              'payload': {'query': c.query, 'input_lines': c.lines}})
             continue
         out_lines = o['out'].decode('utf8', 'replace').split('\n')
+        if 'nl' in c.tags:
+            nsel = len([l for l in out_lines if l != ''])
+            if nsel not in (0, 2):
+                failures.append({'kind': 'spec', 'what': 'the same line is selected when a newline follows it and not when it is the unterminated last line (or the other way round): %d of 2 selected' % nsel,
+                                 'payload': {'query': c.query, 'input_lines': c.lines}})
+            continue
         filt = c.note['filt']
         want = [l for l in c.lines if ev(filt, l, 'impl')]
         if 'count' in c.tags:
